@@ -8,7 +8,12 @@ import (
 	"net"
 	"time"
 
+	"github.com/patrickmn/go-cache"
+
+	cryptopb "github.com/scionproto/scion/pkg/proto/crypto"
+	"github.com/scionproto/scion/pkg/scrypto"
 	"github.com/scionproto/scion/pkg/scrypto/cppki"
+	"github.com/scionproto/scion/pkg/scrypto/signed"
 	"github.com/scionproto/scion/private/trust"
 
 	"verifharness/internal/pki"
@@ -27,6 +32,20 @@ func (f *chainFetcher) Chains(context.Context, trust.ChainQuery, net.Addr) ([][]
 
 func (f *chainFetcher) TRC(context.Context, cppki.TRCID, net.Addr) (cppki.SignedTRC, error) {
 	return cppki.SignedTRC{}, fmt.Errorf("no TRCs served")
+}
+
+// updateFetcher serves the TRC update S2.
+type updateFetcher struct{ s2 cppki.SignedTRC }
+
+func (f *updateFetcher) Chains(context.Context, trust.ChainQuery, net.Addr) ([][]*x509.Certificate, error) {
+	return nil, nil
+}
+
+func (f *updateFetcher) TRC(_ context.Context, id cppki.TRCID, _ net.Addr) (cppki.SignedTRC, error) {
+	if id == f.s2.TRC.ID {
+		return f.s2, nil
+	}
+	return cppki.SignedTRC{}, fmt.Errorf("not found")
 }
 
 type timeline struct {
@@ -66,7 +85,7 @@ func chainsMode(scn, out string) {
 	var cwA, cwB *pki.ChainWorld
 	var trcsA []cppki.SignedTRC
 	tlCache := map[timeline][]cppki.SignedTRC{}
-	nver, nprov := 0, 0
+	nver, nprov, nhist := 0, 0, 0
 	lastPart := ""
 	var poolA, poolB []pki.AChainCert
 	var atrcs []pki.ATRC
@@ -102,8 +121,11 @@ func chainsMode(scn, out string) {
 			vt.Fatal("scenario line %d: %v", n, err)
 		}
 		if c.Kind != lastPart {
+			lastWasB := lastPart == "provider"
 			lastPart = c.Kind
-			if c.Kind == "verify" {
+			if c.Kind == "history" && lastWasB {
+				// same pool as the provider cases
+			} else if c.Kind == "verify" {
 				w.Emit(vt.M{"ev": "reset", "pool": poolA, "trcs": atrcs})
 			} else {
 				w.Emit(vt.M{"ev": "reset", "pool": poolB, "trcs": []pki.ATRC{}})
@@ -147,10 +169,73 @@ func chainsMode(scn, out string) {
 			w.Emit(vt.M{"ev": "provider", "tl": c.TL, "db": c.DB, "remote": c.Remote, "ret": ret,
 				"errnil": b2i(err == nil), "asked": f.asked})
 			sq.Close()
+		case "history":
+			nhist++
+			sq := newTrustDB()
+			trcs := trcsOf(cwB, tlCache, c.TL) // S1, S2
+			if len(trcs) != 2 {
+				vt.Fatal("history case without TRC update")
+			}
+			if _, err := sq.InsertTRC(ctx, trcs[0]); err != nil {
+				vt.Fatal("insert TRC: %v", err)
+			}
+			hasOld := false
+			for _, ch := range c.DB {
+				if _, err := sq.InsertChain(ctx, cwB.Chain(ch)); err != nil {
+					vt.Fatal("insert chain: %v", err)
+				}
+				hasOld = hasOld || (len(ch) == 2 && ch[0] == 7 && ch[1] == 4)
+			}
+			f := &updateFetcher{s2: trcs[1]}
+			prov := trust.FetchingProvider{DB: sq, Recurser: trust.LocalOnlyRecurser{}, Fetcher: f, Router: fixedRouter{}}
+			ident := func(got [][]*x509.Certificate) [][]int {
+				ret := [][]int{}
+				for _, ch := range got {
+					ret = append(ret, cwB.Ident(ch))
+				}
+				return ret
+			}
+			// a verifier with its real cache, and a message signed with the chain under the old root
+			cached := trust.Verifier{BoundIA: pki.ChainIA(2), Engine: prov, Cache: cache.New(time.Minute, time.Minute),
+				MaxCacheExpiration: time.Hour}
+			var msg *cryptopb.SignedMessage
+			v1, v2, v3 := -1, -1, -1
+			if hasOld {
+				as := cwB.Cert(7)
+				signer := trust.Signer{PrivateKey: as.Key, Algorithm: signed.ECDSAWithSHA256, IA: pki.ChainIA(2),
+					TRCID: trcs[0].TRC.ID, SubjectKeyID: as.X.SubjectKeyId, Expiration: time.Now().Add(time.Hour),
+					Chain: cwB.Chain([]int{7, 4})}
+				m, err := signer.Sign(ctx, []byte("message"))
+				if err != nil {
+					vt.Fatal("sign: %v", err)
+				}
+				msg = m
+				_, err = cached.Verify(ctx, msg)
+				v1 = b2i(err == nil)
+			}
+			got1, _ := prov.GetChains(ctx, trust.ChainQuery{IA: pki.ChainIA(2)})
+			nerr := prov.NotifyTRC(ctx, trcs[1].TRC.ID)
+			latest, err := sq.SignedTRC(ctx, cppki.TRCID{ISD: 1, Base: scrypto.LatestVer, Serial: scrypto.LatestVer})
+			if err != nil {
+				vt.Fatal("db read: %v", err)
+			}
+			got2, _ := prov.GetChains(ctx, trust.ChainQuery{IA: pki.ChainIA(2)})
+			if hasOld {
+				_, err := cached.Verify(ctx, msg)
+				v2 = b2i(err == nil)
+				_, err = (trust.Verifier{BoundIA: pki.ChainIA(2), Engine: prov}).Verify(ctx, msg)
+				v3 = b2i(err == nil)
+			}
+			if c.DB == nil {
+				c.DB = [][]int{}
+			}
+			w.Emit(vt.M{"ev": "history", "tl": c.TL, "db": c.DB, "get1": ident(got1), "s2ok": b2i(nerr == nil),
+				"latest": int(latest.TRC.ID.Serial), "get2": ident(got2), "v1": v1, "v2": v2, "v3": v3})
+			sq.Close()
 		default:
 			vt.Fatal("unknown case kind %q", c.Kind)
 		}
 	})
 	w.Close()
-	fmt.Printf("verify=%d provider=%d\n", nver, nprov)
+	fmt.Printf("verify=%d provider=%d history=%d\n", nver, nprov, nhist)
 }
